@@ -562,63 +562,12 @@ func keyedMenu(cf kconf, base [2][]tlsx.Seen, thorough bool, emit func(kcase)) {
 			case r.Type == 22 && L >= 4 && 4+(int(r.Data[1])<<16|int(r.Data[2])<<8|int(r.Data[3])) == L:
 				mt, body := r.Data[0], r.Data[4:]
 				BL := len(body)
-				fields := lengthFields(tls13, mt, body)
-				offs := offsets(BL, fields, thorough, 6)
-				// truncations: header length fixed up, and stale (the receiver then takes what follows as the rest of the body)
-				for _, t := range offs {
-					add(fmt.Sprintf("body truncated to %d, header fixed", t), 1, with(hsMsg(mt, t, body[:t])))
-					add(fmt.Sprintf("body truncated to %d, header stale", t), 1, with(hsMsg(mt, BL, body[:t])))
-				}
+				// the structure-aware message edits (plain.go: truncations, header / inner length values, coherent vector
+				// resizes, extensions removed / duplicated / appended, every byte, retyping)
+				msgEdits(tls13, mt, body, thorough, func(desc string, msg []byte) { add(desc, 1, with(msg)) })
 				for _, t := range []int{0, BL / 2, BL - 1} {
 					if t >= 0 && t < BL {
 						add(fmt.Sprintf("body truncated to %d, header stale, then close", t), 1, tlsx.Plain{Type: 22, Data: hsMsg(mt, BL, body[:t]), CloseAfter: true})
-					}
-				}
-				// header length values
-				for _, hl := range []int{0, 1, BL - 1, BL + 1, BL + 4, 65536, 65537, 0xffffff} {
-					if hl >= 0 && hl != BL {
-						add(fmt.Sprintf("header length %d", hl), 1, with(hsMsg(mt, hl, body)))
-					}
-				}
-				add("one trailing byte inside the message", 1, with(hsMsg(mt, BL+1, append(cp(body), 0))))
-				add("one trailing byte after the message", 1, with(append(hsMsg(mt, BL, body), 0)))
-				// every length field inside
-				for _, f := range fields {
-					max := 1<<(8*f.width) - 1
-					for _, v := range []int{0, 1, f.val - 1, f.val + 1, max} {
-						if v < 0 || v == f.val || v > max {
-							continue
-						}
-						b := cp(body)
-						putN(b, f.off, f.width, v)
-						add(fmt.Sprintf("%s@%d = %d (was %d)", f.name, f.off, v, f.val), 1, with(hsMsg(mt, BL, b)))
-					}
-				}
-				// coherent resize of every vector: emptied, its last byte removed, a zero byte appended — with the field,
-				// every enclosing length and the message header adjusted, so the framing stays well-formed (empty
-				// certificate list, empty signature, empty extension block, ...)
-				for fi, f := range fields {
-					for di, delta := range []int{-f.val, -1, +1} {
-						if di == 1 && f.val == 1 {
-							continue // same as emptying
-						}
-						if b, ok := coherentResize(body, fields, fi, delta); ok {
-							add(fmt.Sprintf("%s@%d resized by %+d, all enclosing lengths adjusted", f.name, f.off, delta), 1, with(hsMsg(mt, len(b), b)))
-						}
-					}
-				}
-				// every byte
-				for _, o := range offs {
-					for _, v := range byteMenu(body[o]) {
-						b := cp(body)
-						b[o] = v
-						add(fmt.Sprintf("body[%d] = %02x (was %02x)", o, v, body[o]), 1, with(hsMsg(mt, BL, b)))
-					}
-				}
-				// the same body under every other handshake type
-				for _, t := range hsTypes {
-					if t != mt {
-						add(fmt.Sprintf("retyped as %s", hsName(t)), 1, with(hsMsg(t, BL, body)))
 					}
 				}
 			case r.Type == 21:
